@@ -279,7 +279,18 @@ Acc(env, node, v, ko, seen) ==
   ELSE IF HasRule(node, "type") /\ RuleV(node, "type").t = "tref" THEN RefUnion(env, <<RuleV(node, "type").s>>, v, ko, seen)
   ELSE CASE node.t = "lit" -> ScalarVerdict(node, v, env.enums)
          [] node.t = "arr" ->
-              IF v.t # "arr" THEN "reject"
+              \* a long array written as a pattern:  n items equal to `item`, except the one at position `at` (0: none), which is `odd`
+              IF v.t = "reparr" THEN
+                LET L == Len(node.items)
+                    hasItem(k) == IF k < L THEN k <= v.n /\ k # v.at                                  \* does schema position k meet `item` ?
+                                  ELSE (v.n - L + 1) - (IF v.at >= L THEN 1 ELSE 0) > 0               \* the last one takes every further index
+                    oddPos == IF v.at = 0 THEN 0 ELSE IF v.at < L THEN v.at ELSE L
+                IN IF node.items = <<>> THEN B3(v.n = 0)
+                   ELSE And3({Acc(env, node.items[k], v.item, ko, {}) : k \in {j \in 1..L : hasItem(j)}}
+                             \cup (IF oddPos = 0 THEN {} ELSE {Acc(env, node.items[oddPos], v.odd, ko, {})})
+                             \cup {B3(HasRule(node, "minItems") => v.n >= ItemsRule(node, "minItems")),
+                                   B3(HasRule(node, "maxItems") => v.n <= ItemsRule(node, "maxItems"))})
+              ELSE IF v.t # "arr" THEN "reject"
               ELSE IF node.items = <<>> THEN B3(v.items = <<>>)
               ELSE And3({Acc(env, node.items[IF i <= Len(node.items) THEN i ELSE Len(node.items)], v.items[i], ko, {}) : i \in DOMAIN v.items}
                         \cup {B3(HasRule(node, "minItems") => Len(v.items) >= ItemsRule(node, "minItems")),
